@@ -152,6 +152,12 @@ where
             eps = step2.f();
             l = l2;
             rep.count("public_fields_reassigned_between_steps");
+            if g.bool() {
+                // ... and the public positions tensor (restart all chains elsewhere)
+                let newpos: Vec<f64> = (0..n_chains * d).map(|_| g.normal() * 1.5 * scale).collect();
+                sampler.positions = vt2::<B>(&newpos, n_chains, d);
+                rep.count("public_positions_reassigned_between_steps");
+            }
         }
         let before = tv(&sampler.positions);
         hook::enable();
